@@ -38,7 +38,7 @@ if os.path.exists(rf):
     out += ["| seed | breaks | detected | by (harness:assertion) | checks run |", "|---|---|---|---|---|"]
     for r in res:
         by = "; ".join(x for run in r["runs"] for x in run["by"][:3]) or "—"
-        out.append(f"| {r['seed']} | {r['breaks']} | {'obsolete (mutated code removed by a later fix)' if r.get('obsolete') else ('yes' if r['detected'] else 'NO')} | {by} | {', '.join(run['check'] + ('(n/a patch)' if not run['applies'] else '') for run in r['runs'])} |")
+        out.append(f"| {r['seed']} | {r['breaks']} | {'obsolete (mutated code removed by a later fix)' if r.get('obsolete') else ('yes' if r['detected'] else 'NO')} | {by} | {', '.join(run['check'] + (' [only ' + run['targeted'] + ']' if run.get('targeted') else '') + ('(n/a patch)' if not run['applies'] else '') for run in r['runs'])} |")
     n = sum(1 for r in res if r["detected"])
     live = sum(1 for r in res if not r.get("obsolete"))
     out.append(f"\n{n} of {live} applicable seeded changes reported ({len(res) - live} obsolete).\n")
